@@ -5,6 +5,7 @@ import Gotree.Model.C19Rename
 import Gotree.Model.C19PreRun
 import Gotree.Model.C19Glue
 import Gotree.Gen.C19Writes
+import Gotree.Gen.C19Changed
 
 /-
   Driver of C19.  Case lines (harness/c19):
@@ -18,8 +19,10 @@ import Gotree.Gen.C19Writes
                (fixedInputs = true: the hand-written inputs on which every template is a valid
                 invocation and must succeed; false: drawn trees, on which an invocation naming
                 tips may legitimately be refused — only omitted = explicit is required;
-                fails: an invocation of a network command that an argument check refuses offline)
+                fails: an invocation of a network command that an argument check refuses offline;
+                minus: a template from which the compared option was removed — may be refused, alike in both runs)
                flag "*" (type "all"): every option the template omits spelled out at once
+    C19.changed rows            table (f): tests of whether an option was GIVEN (harness changed.go)
     C19.writes rows             table (e): assignments to option variables after parsing (harness writes.go)
     C19.glue   set extra runs   option glue of the anchored commands (Model/C19Glue), see harness glueCases
     C19.format / C19.seed / C19.threads   the global options after parsing (Model/C19PreRun), see harness preRunCases
@@ -70,10 +73,13 @@ def knownClass (path flag o0 o1 : String) (a0 a1 : List String := []) : String :
   if path == "gotree rename" && flag == "regexp" &&
      contains o1 "--replace must be given with --regexp" && !(contains o0 "--replace must be given with --regexp")
   then "class=RenameRegexpGiven "
-  -- every omitted option spelled out at once: the same finding when the model of rename's cascade
-  -- attributes the difference to `Changed` (the cascade as coded takes another branch, the
-  -- cascade that reads the values does not) and --regexp=none is among the spelled-out options
-  else if path == "gotree rename" && flag == "*" && a1.contains "--regexp=none" && !(a0.any (·.startsWith "--regexp")) &&
+  -- the same finding in any other context (every omitted option spelled out at once; --regexp or
+  -- --replace removed from a template that gave it): the documented default "none" of --regexp /
+  -- --replace is what the explicit run adds, and the model of rename's cascade attributes the
+  -- difference to `Changed` — the cascade as coded takes another branch, the cascade that reads
+  -- the values does not
+  else if path == "gotree rename" && (flag == "*" || flag == "regexp" || flag == "replace") &&
+     ((a1.contains "--regexp=none" && !(a0.contains "--regexp=none")) || (a1.contains "--replace=none" && !(a0.contains "--replace=none"))) &&
      (match Rename.parseArgs a0, Rename.parseArgs a1 with
       | some c0, some c1 => Rename.renameMode c0 != Rename.renameMode c1 && Rename.renameModeByValue c0 == Rename.renameModeByValue c1
       | _, _ => false)
@@ -81,7 +87,9 @@ def knownClass (path flag o0 o1 : String) (a0 a1 : List String := []) : String :
   -- open finding F55: `brlen setrand` draws the mean in [min-mean, max-mean] only when BOTH options were
   -- *given* (cmd/randbrlen.go:59 Flags().Changed): their documented defaults passed together are not "omitted"
   else if path == "gotree brlen setrand" && (flag == "*" || flag == "min-mean" || flag == "max-mean") &&
-     (a1.contains "--min-mean=0.001" || a1.contains "--max-mean=0.05") &&
+     -- BOTH options are on the explicit command line, and at least one of them is a documented default the explicit run added
+     (a1.any (·.startsWith "--min-mean")) && (a1.any (·.startsWith "--max-mean")) &&
+     ((a1.contains "--min-mean=0.001" && !(a0.contains "--min-mean=0.001")) || (a1.contains "--max-mean=0.05" && !(a0.contains "--max-mean=0.05"))) &&
      -- the model of the cascade attributes the difference to the interval being selected by `Changed`, and to nothing else
      (match (Setrand.parseArgs a0).bind Setrand.behaviour, (Setrand.parseArgs a1).bind Setrand.behaviour with
       | some b0, some b1 => b0.range == none && b1.range.isSome &&
@@ -114,6 +122,12 @@ def cascadeTie (path : String) (a0 a1 : List String) (o0 o1 : String) (strict : 
       some ((Rename.renameMode c0).errClass == Rename.observedClass o0 && (Rename.renameMode c1).errClass == Rename.observedClass o1 &&
             (Rename.behaviour c0 != Rename.behaviour c1 || o0 == o1))
     | _, _ => none
+  else if path == "gotree repopulate" then
+    -- refused ("must be provided") exactly when the value of --id-groups is the sentinel "none"
+    let valueIn (a : List String) : String := (Repopulate.groupsOf a).getD Repopulate.defaultGroups
+    let givenIn (a : List String) : Bool := (Repopulate.groupsOf a).isSome
+    let refused (o : String) : Bool := contains o "File with groups of identical tips must be provided"
+    some (Repopulate.accepts (givenIn a0) (valueIn a0) == !(refused o0) && Repopulate.accepts (givenIn a1) (valueIn a1) == !(refused o1))
   else if path == "gotree brlen setrand" then
     match (Setrand.parseArgs a0).bind Setrand.behaviour, (Setrand.parseArgs a1).bind Setrand.behaviour with
     | some b0, some b1 =>
@@ -134,7 +148,10 @@ def handle (op : String) (f : List String) : Verdict :=
           unescape dflt, unescape cur, unescape claim, parseRows peers, parseRows shadowed with
     | some path, some flag, some short, some p, some v, some typ, some dflt, some cur, some claim, some ps, some sh =>
       let r : Row := ⟨path, flag, short, p, v, typ, dflt, cur⟩
-      let tags := ["nontrivial", typeTag typ] ++ tagIf p "persistent" ++ tagIf (!p) "local" ++
+      -- non-trivial: the row could go wrong through the registrations alone — its variable is shared, it hides an
+      -- inherited flag, or its default is not the zero value the variable would hold anyway
+      let zero := isZeroDefault typ dflt
+      let tags := tagIf (!zero || !ps.isEmpty || !sh.isEmpty) "nontrivial" ++ [typeTag typ] ++ tagIf p "persistent" ++ tagIf (!p) "local" ++
         tagIf (!ps.isEmpty) "shared-variable" ++ tagIf (!(peersOK r ps)) "peer-conflict" ++ tagIf (short != "") "shorthand" ++
         tagIf (claim != "") "usage-claims-default" ++ tagIf (!sh.isEmpty) "shadows-inherited" ++ tagIf (!(shadowOK r sh)) "shadow-default-differs" ++
         tagIf (dflt == "" || dflt == "false" || dflt == "0" || dflt == "[]") "zero-default"
@@ -155,7 +172,9 @@ def handle (op : String) (f : List String) : Verdict :=
         ⟨.oracle, tags, "help sentence claims default " ++ claim.quote ++ " but pflag documents and uses: " ++ r.show⟩
       else if predicted (ps ++ [r]) r != some cur then
         ⟨.tie, tags, "model predicts " ++ toString (predicted (ps ++ [r]) r)⟩
-      else if !(explicitSame (ps ++ [r]) r [] [v]) then
+      else if !(explicitSame (ps ++ [r]) r [] [v]) ||
+              -- … and with other options on the command line after it (the peers of the variable, given a value)
+              !(explicitSame (ps ++ [r]) r (ps.map fun q => (q, "given")) (v :: ps.map (·.var))) then
         ⟨.tie, tags, "model: passing the documented default explicitly changes variable " ++ toString v⟩
       else ⟨.pass, tags, ""⟩
     | _, _, _, _, _, _, _, _, _, _, _ => bad "C19.row fields"
@@ -226,10 +245,11 @@ def handle (op : String) (f : List String) : Verdict :=
       if o0.startsWith "exit=-2\n" || o1.startsWith "exit=-2\n" then bad "C19.e2e: the gotree binary could not be started" else
       let ran := o0.startsWith "exit=0\n"
       let renameTie : Option Bool := cascadeTie path a0 a1 o0 o1 (fixed == "true")
-      let tags := tagIf ((ran || fixed == "fails") && o0.length > 12) "nontrivial" ++ tagIf (!ran && fixed != "fails") "template-failed" ++
+      let tags := tagIf ((ran || fixed == "fails" || fixed == "minus") && o0.length > 12) "nontrivial" ++
+        tagIf (!ran && fixed != "fails" && fixed != "minus") "template-failed" ++ tagIf (!ran && fixed == "minus") "refused-without-the-option" ++
         tagIf (renameTie == some true) "cascade-model-agrees" ++
-        tagIf ((path == "gotree rename" || path == "gotree brlen setrand") && renameTie == none) "cascade-args-not-modelled" ++
-        ["tmpl-" ++ tmpl, typeTag typ] ++ tagIf (fixed == "false") "drawn-inputs" ++ tagIf (fixed == "fails") "refused-before-network"
+        tagIf ((path == "gotree rename" || path == "gotree brlen setrand" || path == "gotree repopulate") && renameTie == none) "cascade-args-not-modelled" ++
+        ["tmpl-" ++ tmpl, typeTag typ] ++ tagIf (fixed == "false") "drawn-inputs" ++ tagIf (fixed == "fails") "refused-before-network" ++ tagIf (fixed == "minus") "template-option-removed"
       if fixed == "true" && !(runsOK o0) then
         ⟨.oracle, tags, clip 1500 (path ++ " fails when run with its documented defaults (template " ++ tmpl ++ ", args " ++
           " ".intercalate a0 ++ "): " ++ (clip 600 o0).quote)⟩
@@ -246,13 +266,30 @@ def handle (op : String) (f : List String) : Verdict :=
     | some path, some argsT, some argsB, some ot, some ob =>
       let tags := ["nontrivial", "effect-" ++ tmpl]
       if !(effectOK ot ob) then
-        ⟨.oracle, tags, clip 1200 (path ++ ": the options [" ++ " ".intercalate argsT ++ "] (template " ++ tmpl ++ ") give the same outcome as [" ++
+        -- NOT a violation of the property (which does not say that options have an effect): it is the
+        -- assumption of the parse model — the command reads the variable its option writes — that
+        -- fails, so that "omitted = explicit default" says nothing about this option.  Verdict TIE.
+        ⟨.tie, tags, clip 1200 (path ++ ": the options [" ++ " ".intercalate argsT ++ "] (template " ++ tmpl ++ ") give the same outcome as [" ++
           " ".intercalate argsB ++ "] (template " ++ base ++ "), or a run fails: the command does not read what the option sets; with → " ++
           (clip 250 ot).quote ++ "; without → " ++ (clip 250 ob).quote)⟩
       else if cascadeTie path argsB argsT ob ot == some false then
         ⟨.tie, tags, "model of the option cascade of " ++ path ++ " disagrees with the pair of runs " ++ tmpl ++ " / " ++ base⟩
       else ⟨.pass, tags ++ tagIf (cascadeTie path argsB argsT ob ot == some true) "cascade-model-agrees", ""⟩
     | _, _, _, _, _ => bad "C19.effect fields"
+  | "changed", [cs] =>
+    -- table (f): tests of whether an option was given, "path,flag,file," each followed by ";"
+    match (splitTerm ";" cs).mapM parseStrList with
+    | some l =>
+      let parsed : List Glue.ChangedSite := l.filterMap fun x => match x with
+        | [p, f, file] => some ⟨p, f, file⟩
+        | _ => none
+      if parsed.length != l.length then bad "C19.changed rows" else
+      let tags := tagIf (!parsed.isEmpty) "nontrivial" ++ ["changed-sites-" ++ toString parsed.length] ++ tagIf (parsed == Gen.C19Changed.sites) "same-as-proved-table"
+      match parsed.filter fun c => !(Glue.isAccounted c) with
+      | c :: _ => ⟨.tie, tags, c.path ++ " asks whether --" ++ c.flag ++ " was GIVEN (Changed, cmd/" ++ c.file ++
+          ") and no model or recorded finding accounts for it: omitted and the documented default spelled out may differ there"⟩
+      | [] => if parsed != Gen.C19Changed.sites then ⟨.tie, tags, "table (f) dumped at run time differs from Gen/C19Changed.lean"⟩ else ⟨.pass, tags, ""⟩
+    | none => bad "C19.changed fields"
   | "writes", [ws] =>
     -- table (e): assignments to option variables after parsing, "path,var,file,rhs," each followed by ";"
     match (splitTerm ";" ws).mapM parseStrList with
@@ -340,10 +377,11 @@ def handle (op : String) (f : List String) : Verdict :=
       | (a, _, k, o) :: _ =>
         ⟨.oracle, tags, clip 900 (path ++ " [" ++ a ++ "] on " ++ k ++ " input differs from the run with the documented default format spelled out: " ++ (clip 300 o).quote)⟩
       | [] =>
-        -- oracle (an option that is given must be honoured, cf. `effectOK`): input written in format K read with --format=K
+        -- an option that is given must be honoured (cf. `effectOK`; again the parse model's assumption, verdict TIE):
+        -- input written in format K read with --format=K
         match parsed.filter fun (_, fv, k, o) => fv == k && !(runsOK o) with
         | (a, _, k, o) :: _ =>
-          ⟨.oracle, tags, clip 900 (path ++ " [" ++ a ++ "] refuses " ++ k ++ " input although that format is requested: the option is not honoured (PersistentPreRun not run?): " ++ (clip 300 o).quote)⟩
+          ⟨.tie, tags, clip 900 (path ++ " [" ++ a ++ "] refuses " ++ k ++ " input although that format is requested: the option is not honoured (PersistentPreRun not run?): " ++ (clip 300 o).quote)⟩
         | [] =>
         -- tie: the model of PersistentPreRun predicts which runs can read their input, and all of those print the same
         let wrong := parsed.filter fun (_, fv, k, o) => PreRun.readable (fvOf fv) k != runsOK o
@@ -408,7 +446,7 @@ def handle (op : String) (f : List String) : Verdict :=
     -- the model keeps values as the text Value.String() prints: Set(DefValue) must give DefValue back
     match unescape path, unescape flag, unescape dflt, unescape err, unescape after with
     | some path, some flag, some dflt, some err, some after =>
-      let tags := ["nontrivial", typeTag typ]
+      let tags := tagIf (!(isZeroDefault typ dflt)) "nontrivial" ++ [typeTag typ]
       if err != "" then ⟨.tie, tags, path ++ " --" ++ flag ++ ": Value.Set(DefValue) fails: " ++ err⟩
       else if after != dflt then
         ⟨.tie, tags, path ++ " --" ++ flag ++ ": Value.Set(" ++ dflt.quote ++ ").String() = " ++ after.quote⟩
@@ -419,7 +457,8 @@ def handle (op : String) (f : List String) : Verdict :=
     -- inherited flags of the same name it hides — cobra's help lists the ancestor's line for those)
     match unescape path, unescape help, (splitTerm ";" flags).mapM parseStrList, (splitTerm "|" rowsets).mapM parseRows with
     | some path, some help, some fl, some rss =>
-      let tags := ["nontrivial", "flags-" ++ toString fl.length]
+      let tags := tagIf (fl.any fun x => match x with | _ :: typ :: cur :: _ => !(isZeroDefault typ cur) | _ => false) "nontrivial" ++
+        ["flags-" ++ toString fl.length]
       if exit != "0" then ⟨.oracle, tags, path ++ " --help exits with " ++ exit⟩ else
       let badOnes := fl.filter fun x =>
         match x with
